@@ -639,9 +639,10 @@ def m_int(i, args, kw, st, node):
     v = args[0]
     if isinstance(v, (int, float)) and len(args) == 1:
         return int(v)
-    if isinstance(v, (str, bytes)) and all(is_concrete(a) for a in args):
+    if isinstance(v, (str, bytes)) and all(is_concrete(a) for a in args) and \
+            all(is_concrete(x) for x in kw.values()):
         try:
-            return int(*args)
+            return int(*args, **kw)
         except Exception:
             i._diverged = i.do_raise("ValueError", st, node)
             return UNK
